@@ -9,7 +9,7 @@ import os, re, sys, json, glob, shutil, subprocess, tempfile, argparse
 from concurrent.futures import ThreadPoolExecutor
 V = os.path.dirname(os.path.dirname(os.path.abspath(__file__)))
 sys.path.insert(0, V)
-ap = argparse.ArgumentParser(); ap.add_argument('header'); ap.add_argument('--jobs', type=int, default=8); ap.add_argument('--max', type=int, default=100000); ap.add_argument('--unit', default=''); ap.add_argument('--lines', default='', help='only these line numbers, comma separated'); ap.add_argument('--only-delete', action='store_true')
+ap = argparse.ArgumentParser(); ap.add_argument('header'); ap.add_argument('--jobs', type=int, default=8); ap.add_argument('--max', type=int, default=100000); ap.add_argument('--unit', default=''); ap.add_argument('--lines', default='', help='only these line numbers, comma separated'); ap.add_argument('--only-delete', action='store_true'); ap.add_argument('--native', action='store_true', help='let undecided units fall back on the native families, as a real quick-tier run does')
 a = ap.parse_args()
 import units as U
 props = {u.name: u.props for u in U.all_units()}
@@ -48,7 +48,7 @@ def run(mu):
         verdicts = []; why = ''
         for p in props.get(unit, []):
             if p == 'C13': continue
-            env = dict(os.environ, VERIF_REPO=tmp, VERIF_EVIDENCE_DIR=os.path.join(tmp, 'ev'), VERIF_BUILD_TAG='sweep_' + os.path.basename(tmp), VERIF_NO_NATIVE='1')
+            env = dict(os.environ, VERIF_REPO=tmp, VERIF_EVIDENCE_DIR=os.path.join(tmp, 'ev'), VERIF_BUILD_TAG='sweep_' + os.path.basename(tmp), **({} if a.native else {'VERIF_NO_NATIVE': '1'}))
             r = subprocess.run([os.path.join(V, 'check'), p, '--unit', unit, '--tier', 'quick', '--jobs', '2'], env=env, stdout=subprocess.PIPE, stderr=subprocess.STDOUT)
             verdicts.append(r.returncode)
             if r.returncode == 2:
